@@ -203,6 +203,9 @@ class ZeroLinearOperator(LinearOperator):
         tensor_size_ind = -2 if other.ndimension() > 1 else -1
         if self.size(-1) != other.size(tensor_size_ind):
             raise RuntimeError("Size mismatch, self: {}, other: {}".format(self.size(), other.size()))
+        if torch.is_tensor(other):
+            # (like every other operator: a Tensor in, a Tensor out - callers such as the interpolation routines rely on it)
+            return self._matmul(other)
         # The batch dimensions of the operator and of other broadcast against each other
         output_shape = _matmul_broadcast_shape(self.shape, other.shape)
         return ZeroLinearOperator(*output_shape, dtype=other.dtype, device=other.device)
